@@ -740,7 +740,7 @@ fn generate(thorough: bool) -> Vec<Program> {
                     if total > if thorough { 5 } else { 3 } {
                         continue;
                     }
-                    if embedded && total > 3 {
+                    if embedded && (total > 3 || (!thorough && total > 2)) {
                         continue;
                     }
                     if !a.iter().chain(b).any(|o| *o == Op::Set) {
@@ -757,6 +757,12 @@ fn generate(thorough: bool) -> Vec<Program> {
                     for b in &singles[i..] {
                         for c in &last {
                             if !a.iter().chain(b).chain(c).any(|o| *o == Op::Set) {
+                                continue;
+                            }
+                            // Quick tier: three-thread programs cost thousands of executions
+                            // each; keep those in which the inherited waiter W0 is polled or
+                            // dropped by the third thread (the collisions this family exists for).
+                            if !thorough && !c.iter().any(|o| matches!(o, Op::Poll(0) | Op::Drop(0))) {
                                 continue;
                             }
                             out.push(Program { manual, embedded, pre: true, threads: vec![a.clone(), b.clone(), c.clone()] });
